@@ -12,19 +12,6 @@ def isErrConn : Res → Bool
   | .errConn _ => true
   | _ => false
 
-/-- the calls of the receive API -/
-inductive RCall where
-  | head (role : Role)
-  | data
-  | trailers
-deriving Repr, DecidableEq
-
-/-- one poll of a call -/
-def RCall.poll (H : Hdr) : RCall → St FSt → Res × St FSt
-  | .head role => pollHead role fsSrc H
-  | .data => fun x => pollRecvData fsSrc (fsFuel x.src) x
-  | .trailers => pollRecvTrailers fsSrc H
-
 section cell
 variable {σ : Type}
 
@@ -69,7 +56,7 @@ theorem pollRecvResponse_cell (S : Src σ) (H : Hdr) (st : St σ)
         first | rfl | (rw [connErr_isErr] at h; cases h)
     | data _ | cancelPush _ | settings _ | pushPromise _ _ | goaway _ | maxPushId _ | webTransport _ =>
       simp only at h; rw [connErr_isErr] at h; cases h
-  | none => simp only at h; rw [connErr_isErr] at h; cases h
+  | none => rfl
   | pending => rfl
   | data _ | errProto _ | errEnd | errQuic _ | panic => exact fsErr_cell _ _ h
 
@@ -315,26 +302,6 @@ theorem conn_polls_commute (H : Nat → Hdr) (k : Conn) (i j : Nat) (hij : i ≠
     · subst hx'; simp [hji]
     · simp [hx, hx']
 
-/-! ### split streams: the two halves are two components -/
-
-/-- a request stream after `split()`: the send half (what `H3.SendSide` tracks of it) and the
-    receive half (what `H3.ReqRecv` tracks of it) -/
-structure Halves where
-  send : H3.SendSide.Stream
-  recv : Comp
-
-def Halves.sendOp (h : Halves) (op : SOp) : Halves := { h with send := op.apply h.send }
-
-def Halves.recvPoll (H : Hdr) (cell : Option Nat) (h : Halves) (call : RCall) : Res × Option Nat × Halves :=
-  ((pollComp H cell h.recv call).1, (pollComp H cell h.recv call).2.1,
-   { h with recv := (pollComp H cell h.recv call).2.2 })
-
-/-- a step of the task that owns the send half and a poll of the task that owns the receive half
-    commute: they act on disjoint components (and the send half does not look at the cell) -/
-theorem halves_commute (H : Hdr) (cell : Option Nat) (h : Halves) (op : SOp) (call : RCall) :
-    (Halves.recvPoll H cell (h.sendOp op) call).1 = (Halves.recvPoll H cell h call).1 ∧
-    (Halves.recvPoll H cell (h.sendOp op) call).2.1 = (Halves.recvPoll H cell h call).2.1 ∧
-    (Halves.recvPoll H cell (h.sendOp op) call).2.2 = ((Halves.recvPoll H cell h call).2.2).sendOp op :=
-  ⟨rfl, rfl, rfl⟩
+/-! Split streams: see `Model/Split.lean` (`Handle`, `Whole.split`) and `Lemmas/E2ESplit.lean`. -/
 
 end H3.E2E
